@@ -2,6 +2,7 @@ package props
 
 import (
 	"fmt"
+	"go/ast"
 	"path"
 	"regexp"
 	"sort"
@@ -9,6 +10,8 @@ import (
 
 	"golang.org/x/tools/go/packages"
 
+	"verif/tool/goan"
+	"verif/tool/load"
 	"verif/tool/tmpl"
 )
 
@@ -28,16 +31,8 @@ var (
 func checkImportsExplicit(c *Ctx, rule string, gen *packages.Package) {
 	c.Rule(rule, "every package qualifier written literally in a template (or in the templates it calls) is imported literally by the template's own import block — nothing is left for goimports to resolve from the target's surroundings", 10)
 	f := c.Forest(gen, "")
-	prog := c.ProgDeps("./generator", "github.com/go-openapi/runtime/yamlpc")
-	universe := map[string]bool{}
-	nameOf := map[string]string{}
-	for p, pk := range prog.ByPath {
-		if pk.Name != "" && pk.Name != "main" {
-			universe[pk.Name] = true
-			nameOf[p] = pk.Name
-		}
-	}
-	c.Analysed("package names known to the build (qualifier universe)", len(universe))
+	// the universe of package names: what the generator depends on, plus every package of the
+	// libraries the templates import (the code they generate may use any of them)
 	lin := map[string]*tmpl.Linear{}
 	get := func(n string) *tmpl.Linear {
 		if l, ok := lin[n]; ok {
@@ -50,6 +45,56 @@ func checkImportsExplicit(c *Ctx, rule string, gen *packages.Package) {
 		}
 		lin[n] = tmpl.Linearise(t)
 		return lin[n]
+	}
+	patterns := map[string]bool{"./generator": true}
+	for _, name := range f.Names() {
+		if l := get(name); l != nil {
+			if m := rxImportBlock.FindStringSubmatch(l.Text); m != nil {
+				for _, im := range rxImportLine.FindAllStringSubmatch(m[1], -1) {
+					if parts := strings.Split(im[2], "/"); len(parts) >= 3 && strings.Contains(parts[0], ".") {
+						patterns[strings.Join(parts[:3], "/")+"/..."] = true
+					}
+				}
+			}
+		}
+	}
+	var pats []string
+	for p := range patterns {
+		pats = append(pats, p)
+	}
+	sort.Strings(pats)
+	nameOf, err := load.PackageNames(c.RepoDir, pats...)
+	if err != nil || len(nameOf) == 0 {
+		c.Unk(rule, "package names", "", fmt.Sprintf("cannot list the packages of %v: %v", pats, err))
+		return
+	}
+	universe := map[string]bool{}
+	for _, n := range nameOf {
+		if n != "main" {
+			universe[n] = true
+		}
+	}
+	c.Analysed("package names known to the build (qualifier universe)", len(universe))
+	// aliases the generator hands to the templates under constant keys: X.DefaultImports["k"] = …
+	dataAliases := map[string]bool{}
+	for _, fd := range load.AllFuncs(gen) {
+		if fd.Body == nil {
+			continue
+		}
+		ast.Inspect(fd.Body, func(n ast.Node) bool {
+			as, ok := n.(*ast.AssignStmt)
+			if !ok || len(as.Lhs) != 1 {
+				return true
+			}
+			ix, ok := ast.Unparen(as.Lhs[0]).(*ast.IndexExpr)
+			if !ok || goan.LastSel(ix.X) != "DefaultImports" {
+				return true
+			}
+			if k, ok := goan.StringVal(gen.TypesInfo, ix.Index); ok && k != "" {
+				dataAliases[k] = true
+			}
+			return true
+		})
 	}
 	strip := func(s string) string {
 		s = rxStringLit.ReplaceAllString(s, `""`)
@@ -79,6 +124,11 @@ func checkImportsExplicit(c *Ctx, rule string, gen *packages.Package) {
 					base = path.Base(path.Dir(im[2]))
 				}
 				imported[base] = true
+			}
+		}
+		if strings.Contains(l.Text, "imports .DefaultImports") {
+			for k := range dataAliases {
+				imported[k] = true
 			}
 		}
 		// closure over template calls
